@@ -642,6 +642,50 @@ def block_target(kind: str) -> VF.FunctionContract:
     )
 
 
+def children_around_comment(host: str, kind: str) -> VF.FunctionContract:
+    """a container (NAME: block, or §7::NAME section) with two children and a COLUMN-0 comment line between them (a field
+    commented out with `//` at the margin): both children stay children of the container - the second one, indented like the
+    first or deeper (both widths symbolic), is NOT re-parented - and the comment leads the second child"""
+    head = [("IDENTIFIER", "sym"), ("BLOCK", None)] if host == "block" else [("SECTION", "§"), ("NUMBER", ("intval", 7)), ("ASSIGN", None), ("IDENTIFIER", "sym")]
+    h = len(head)
+    spine = head + [("NEWLINE", None), _indent("n"), ("IDENTIFIER", "sym"), ("ASSIGN", None), (kind, "sym"), ("NEWLINE", None), ("COMMENT", "sym"), ("NEWLINE", None), _indent("n2"), ("IDENTIFIER", "sym"), ("ASSIGN", None), (kind, "sym"), ("NEWLINE", None), ("EOF", None)]
+    toks = _toks(spine)
+    i_n, k1, v1, cpos, i_n2, k2, v2 = h + 1, h + 2, h + 4, h + 6, h + 8, h + 9, h + 11
+    want = "Block" if host == "block" else "Section"
+
+    def ch(r):
+        return S.items(S.attr(r, "children"))
+
+    def pre(a):
+        n = S.attr(_tk(a, i_n), "value")
+        n2 = S.attr(_tk(a, i_n2), "value")
+        return S.And(_pre([v1, v2] if kind == "NUMBER" else [], depth=False)(a), n >= 1, n2 >= n)
+
+    def lead(c):
+        lc = S.attr(c, "leading_comments")
+        if lc is None:
+            return []
+        return S.items(lc) if not isinstance(lc, list) else lc
+
+    return VF.FunctionContract(
+        PARSER,
+        "Parser.parse_section",
+        label=f"#{host}[K1::{kind} / // c at column 0 / K2::{kind}]@any-indent",
+        inline_depth=8,
+        setup=lambda I: setattr(I, "recursion_ok", {PARSER + ":Parser.parse_section"}),
+        params={"self": _parser(toks, nested=False), "base_indent": VF.Const(0)},
+        pre=pre,
+        posts={
+            "both-fields-stay-children-of-the-container": lambda a, r: _cls(r) == want and len(ch(r)) == 2 and _cls(ch(r)[0]) == "Assignment" and _cls(ch(r)[1]) == "Assignment",
+            "keys-in-order": lambda a, r: len(ch(r)) == 2 and S.And(S.str_eq(S.attr(ch(r)[0], "key"), S.attr(_tk(a, k1), "value")), S.str_eq(S.attr(ch(r)[1], "key"), S.attr(_tk(a, k2), "value"))),
+            "values-are-token-values": lambda a, r: len(ch(r)) == 2 and _same(S.attr(ch(r)[0], "value"), S.attr(_tk(a, v1), "value")) and _same(S.attr(ch(r)[1], "value"), S.attr(_tk(a, v2), "value")),
+            "comment-leads-the-second-child": lambda a, r: len(ch(r)) == 2 and len(lead(ch(r)[1])) == 1 and _str_is(lead(ch(r)[1])[0], S.attr(_tk(a, cpos), "value")),
+            "every-token-consumed": lambda a, r: S.attr(a.self, "pos") == len(toks) - 1,
+        },
+        raises=(),
+    )
+
+
 # ---- holographic pattern lists: layout tokens never reach the reconstructed pattern (C03) ----------------------------------
 def _holo_spine(layout: str):
     """[ "example" ∧ REQ → § TARGET ]  written on one line, one item per line (any indent widths), or with a comment line"""
